@@ -6,20 +6,23 @@ package environment
 
 import (
 	"github.com/AliceO2Group/Control/core/task"
+	"github.com/AliceO2Group/Control/core/task/sm"
 	"github.com/AliceO2Group/Control/core/workflow"
 	vrt "github.com/AliceO2Group/Control/zz_vrt"
 )
 
 // DEPLOY of an environment with two task roles (the second critical or not) against a task manager that, once asked
-// to acquire the tasks, reports each of them ACTIVE, UNDEPLOYABLE or not at all, each report coming from its own
+// to acquire the tasks, reports each of them ACTIVE, UNDEPLOYABLE, crashed (state ERROR) or not at all, each report coming from its own
 // goroutine as status updates do. Time passes (the deployment timeout fires) only when nothing else can happen.
 //   - every task reported active: DEPLOY succeeds, however the reports interleave with the waiting loop;
 //   - a critical task undeployable or silent: DEPLOY fails and the environment stays in STANDBY.
+//
 //verif:entry HarnessDeployWaitsForActiveTasks unwind=96 preempt=1 lazyarrive=1 timers=lazy reach=deployed,failed stub=github.com/AliceO2Group/Control/common/utils.TimeTrack nosched=github.com/AliceO2Group/Control/core/the.mu
 func HarnessDeployWaitsForActiveTasks() {
 	const (
 		active = iota
 		undeployable
+		crashes // launched and fails at once: its role goes to ERROR
 		silent
 	)
 	outcome := []int{vrt.IntRange("outcome", active, silent), vrt.IntRange("outcome", active, silent)}
@@ -44,6 +47,8 @@ func HarnessDeployWaitsForActiveTasks() {
 					go r.(workflow.PublicUpdatable).UpdateStatus(task.ACTIVE)
 				case undeployable:
 					go r.(workflow.PublicUpdatable).UpdateStatus(task.UNDEPLOYABLE)
+				case crashes:
+					go r.(workflow.PublicUpdatable).UpdateState(sm.ERROR)
 				}
 			}
 		}
